@@ -158,9 +158,15 @@ func readUdt(source []byte, inj injector, fieldNames []string, fieldCodecs []Cod
 	total := reader.Len()
 	for i, fieldCodec := range fieldCodecs {
 		name := fieldNames[i]
-		if encodedField, err := primitive.ReadBytes(reader); err != nil {
-			return errCannotReadUdtField(i, name, err)
-		} else if decodedField, err := inj.zeroElem(i, name); err != nil {
+		var encodedField []byte
+		if reader.Len() > 0 {
+			var err error
+			if encodedField, err = primitive.ReadBytes(reader); err != nil {
+				return errCannotReadUdtField(i, name, err)
+			}
+		}
+		// else: the value has fewer fields than the type, which the protocol specification allows; the missing fields are NULL
+		if decodedField, err := inj.zeroElem(i, name); err != nil {
 			return errCannotCreateUdtField(i, name, err)
 		} else if fieldWasNull, err := fieldCodec.Decode(encodedField, decodedField, version); err != nil {
 			return errCannotDecodeUdtField(i, name, err)
